@@ -611,9 +611,17 @@ def requirement(cx, n, facts):
             ok = shift_ok(cx, facts, R, r, width)
             return ("shift %s" % n["op"], R, ok, "amount < %s" % width)
     if k == "unop" and n.get("op") == "*":
-        et = unit.ty(T.unwrap(unit, n["e"]).get("t")) or ""
-        # raw pointer dereference of a possibly-null pointer obtained from a lookup is handled
-        # by the to_pointer/from_pointer idioms; not a site here
+        # raw pointers used as container iterators (std::string_view, raw_vector): a local
+        # initialised from X.begin()/cbegin()/std::next(...) of a container
+        e = T.unwrap(unit, n["e"])
+        if e is not None and e.get("k") == "ref" and e["id"] in cx.defs:
+            d = T.unwrap(unit, cx.defs[e["id"]])
+            if d is not None and d.get("k") == "call" and _short(unit, d) in ("begin", "cbegin") and d.get("recv") is not None:
+                rt = unit.ty(T.unwrap(unit, d["recv"]).get("t")) or ""
+                if "basic_string_view" in rt or "basic_string" in rt or "vector" in rt or "array" in rt:
+                    R = T.norm(unit, e)
+                    ok = iter_not_end(cx, facts, R, e)
+                    return ("iterator deref", R, ok, "it != end()")
         return None
     return None
 
@@ -737,6 +745,10 @@ def is_size_of(t, R):
 def index_in_bounds(facts, idx, R, cls):
     if idx is None:
         return False
+    if idx == ("k", "0"):
+        for (t, pol) in facts:
+            if isinstance(t, tuple) and t[0] == "c" and isinstance(t[1], str) and t[1].endswith("::empty") and t[2] == R and not pol:
+                return True
     for (t, pol) in facts:
         if not (isinstance(t, tuple) and t[0] == "b" and len(t) == 4):
             continue
@@ -747,6 +759,9 @@ def index_in_bounds(facts, idx, R, cls):
             return True
         if o == ">" and r == idx and is_size_of(l, R):
             return True
+        # !R.empty() and constant index 0
+        if idx == ("k", "0") and isinstance(t, tuple) and False:
+            pass
         # size(R) == K and constant index < K
         if o == "==" and idx[0] == "k" and str(idx[1]).isdigit():
             for a, b in ((l, r), (r, l)):
